@@ -219,14 +219,46 @@ type pathQuery struct {
 	goalExit func(kind int, b *cfg.Block) bool
 	goalBlk  func(b *cfg.Block) bool // reached the *start* of this block (after leaving from)
 	edgeOK   func(cond ast.Expr, polarity bool) bool
+	// atLeastOnce: range loops that are known to run their body at least once (a non-empty
+	// table).  The exit edge of such a loop is only taken after the body has been entered.
+	atLeastOnce map[*cfg.Block]*cfg.Block // loop head -> done block
 }
 
 // exists reports whether a path satisfying q exists, and returns a witness node.
 func (g *FG) exists(q pathQuery) (bool, ast.Node) {
-	visited := map[*cfg.Block]bool{}
-	var work []*cfg.Block
+	type item struct {
+		b        *cfg.Block
+		fromBody bool // reached over the back edge of an at-least-once loop (only meaningful for its head)
+	}
+	type vkey struct {
+		b        *cfg.Block
+		fromBody bool
+	}
+	visited := map[vkey]bool{}
+	var work []item
+	// inLoop: blocks of an at-least-once loop's body (reachable from its body successor without passing the head)
+	inLoop := map[*cfg.Block]map[*cfg.Block]bool{}
+	for head, done := range q.atLeastOnce {
+		set := map[*cfg.Block]bool{}
+		var stack []*cfg.Block
+		for _, s := range head.Succs {
+			if s != done {
+				stack = append(stack, s)
+			}
+		}
+		for len(stack) > 0 {
+			b := stack[len(stack)-1]
+			stack = stack[:len(stack)-1]
+			if set[b] || b == head {
+				continue
+			}
+			set[b] = true
+			stack = append(stack, b.Succs...)
+		}
+		inLoop[head] = set
+	}
 	// scan scans block b from idx; returns (found, witness); pushes successors.
-	scan := func(b *cfg.Block, idx int) (bool, ast.Node) {
+	scan := func(b *cfg.Block, idx int, fromBody bool) (bool, ast.Node) {
 		for i := idx; i < len(b.Nodes); i++ {
 			n := b.Nodes[i]
 			if q.goalNode != nil && q.goalNode(n) {
@@ -251,28 +283,66 @@ func (g *FG) exists(q pathQuery) (bool, ast.Node) {
 			if cond != nil && q.edgeOK != nil && !q.edgeOK(cond, si == 0) {
 				continue
 			}
-			work = append(work, s)
+			if done, ok := q.atLeastOnce[b]; ok && s == done && !fromBody {
+				continue // the loop runs at least once: no exit before the body
+			}
+			_, sIsHead := q.atLeastOnce[s]
+			work = append(work, item{s, sIsHead && inLoop[s][b]})
 		}
 		return false, nil
 	}
-	if ok, w := scan(q.from.b, q.from.idx); ok {
+	if ok, w := scan(q.from.b, q.from.idx, false); ok {
 		return true, w
 	}
 	for len(work) > 0 {
-		b := work[len(work)-1]
+		it := work[len(work)-1]
 		work = work[:len(work)-1]
-		if visited[b] {
+		k := vkey{it.b, it.fromBody}
+		if visited[k] {
 			continue
 		}
-		visited[b] = true
-		if q.goalBlk != nil && q.goalBlk(b) {
+		visited[k] = true
+		if q.goalBlk != nil && q.goalBlk(it.b) {
 			return true, nil
 		}
-		if ok, w := scan(b, 0); ok {
+		if ok, w := scan(it.b, 0, it.fromBody); ok {
 			return true, w
 		}
 	}
 	return false, nil
+}
+
+// nonEmptyRangeLoops: the range loops of the graph's function over a package-level variable
+// that is initialised with a non-empty composite literal and never assigned again.
+func (g *FG) nonEmptyRangeLoops(c *Ctx, info *types.Info, body ast.Node) map[*cfg.Block]*cfg.Block {
+	out := map[*cfg.Block]*cfg.Block{}
+	ast.Inspect(body, func(x ast.Node) bool {
+		rs, ok := x.(*ast.RangeStmt)
+		if !ok {
+			return true
+		}
+		nonEmpty := false
+		switch t := ast.Unparen(rs.X).(type) {
+		case *ast.CompositeLit:
+			nonEmpty = len(t.Elts) > 0
+		case *ast.Ident:
+			if v, ok := info.Uses[t].(*types.Var); ok && v.Pkg() != nil && v.Parent() == v.Pkg().Scope() {
+				if len(c.fieldWritesOfVar(v)) == 0 {
+					if lit := c.packageVarLiteral(v); lit != nil && len(lit.Elts) > 0 {
+						nonEmpty = true
+					}
+				}
+			}
+		}
+		if nonEmpty {
+			head, _, done := g.loopBlocks(rs)
+			if head != nil && done != nil {
+				out[head] = done
+			}
+		}
+		return true
+	})
+	return out
 }
 
 // after returns the point just after the CFG node containing n.
